@@ -175,7 +175,7 @@ func genHist(rng *hx.Rng, n int) []hist.Op {
 }
 
 func histories(o *hx.Opts, rep *hx.Report, w *world.World, rng *hx.Rng) {
-	env := &hist.Env{W: w, Driver: o.Driver, Rep: rep, Stream: "history vs Model/Mail (flags)"}
+	env := &hist.Env{W: w, Driver: o.Driver, Rep: rep, SkipValidity: true, Stream: "history vs Model/Mail (flags)"}
 	env.OnStep = func(h *hist.H, op hist.Op, real, model []hist.BoxD) {
 		if len(real) == 0 {
 			return
